@@ -18,6 +18,7 @@ import re
 
 from vverif import lockstep as ls
 from vverif import httpref
+from vverif.lsutil import RetryWorld
 from vverif.core import Result, Violation, HarnessError
 
 LEVEL = 'exploration'
@@ -298,7 +299,7 @@ _seen_keys = {}        # per process (= per shard): violation key -> n of the fi
 
 
 def make_world_for(ctx, shard, relaxed):
-    w = ls.World(ctx, 'w%d' % shard, ls.port_base_for_check(ctx.pid, shard),
+    w = RetryWorld(ctx, 'w%d' % shard, ls.port_base_for_check(ctx.pid, shard),
                  conf='relaxed_header_parser %s\n' % relaxed)
     w.relaxed = relaxed
     return w
